@@ -4,7 +4,7 @@
    The modelled operations (Model.v, ModelF.v) contain every conversion / wrap modulo 2^w of the C and RecInt types and
    every IEEE rounding explicitly, so "= exact residue" states that no overflow, wrap or rounding is observable. *)
 From Coq Require Import ZArith List.
-From C03 Require Import Model ModelF ModelDK Params ProofsInt ProofsEuclid ProofsIntInv ProofsRU ProofsFM ProofsBI ProofsBarrett ProofsBarrettM ProofsPrecomp ProofsMisc ProofsBF ProofsEX ProofsBN ProofsRnd ProofsEXM ProofsBIQ ProofsDKR ProofsDKQ ProofsDKS ProofsDK ProofsFB ProofsFInv ProofsTop ProofsTop2 ProofsTop3.
+From C03 Require Import Model ModelF ModelDK Params ProofsInt ProofsEuclid ProofsIntInv ProofsRU ProofsFM ProofsBI ProofsBarrett ProofsBarrettM ProofsPrecomp ProofsMisc ProofsBF ProofsEX ProofsBN ProofsRnd ProofsEXM ProofsBIQ ProofsDKR ProofsDKQ ProofsDKS ProofsDK ProofsFB ProofsFInv ProofsBIInv ProofsPrecompB ProofsPrecompBS ProofsPrecompBU ProofsTop ProofsTop2 ProofsTop3.
 Local Open Scope Z_scope.
 
 (* integral Modular<S,C>: every instantiated (Storage_t, Compute_t) pair, every p in [minCardinality, maxCardinality] *)
@@ -203,3 +203,24 @@ Theorem C03_balanced_floating_div_exact : BF_div_stmt.  Proof. exact bf_div_exac
 Print Assumptions C03_balanced_floating_div_exact.
 Theorem C03_balanced_floating_isUnit_iff_gcd_one : BF_isUnit_stmt.   Proof. exact bf_isUnit_exact. Qed.
 Print Assumptions C03_balanced_floating_isUnit_iff_gcd_one.
+
+(* ModularBalanced<int32_t|int64_t>::inv (invext on (a < 0) ? a + _p : a, then NORMALISE) and ::div (mul by the inverse), through the
+   generic extended_euclid theorem and the full mul theorem: every p in the proved envelope BI_env (contains the advertised range) *)
+Theorem C03_balanced_int_inv_exact : forall w p, BI_inv_stmt w p.   Proof. exact bi_inv_exact. Qed.
+Print Assumptions C03_balanced_int_inv_exact.
+Theorem C03_balanced_int_div_exact : forall w p, BI_div_stmt w p.   Proof. exact bi_div_exact. Qed.
+Print Assumptions C03_balanced_int_div_exact.
+Theorem C03_balanced_int_inv_hypotheses_satisfiable :
+  BI_env 64 6074000999 /\ bal_canon 6074000999 (- 3037000499) /\ Z.gcd (- 3037000499) 6074000999 = 1.
+Proof. exact bi_inv_hyps_sat. Qed.
+Print Assumptions C03_balanced_int_inv_hypotheses_satisfiable.
+(* precomp_b(invb, b) followed by mul_precomp_b (Shoup's multiplication by a precomputed operand): with invb = floor(2^(4s) b / p) and
+   q = floor(a * invb / 2^(4s)) the quotient is the true one or one less (pure arithmetic) ... *)
+Theorem C03_shoup_quotient_within_one : forall a b p N, 0 < p -> 0 < N -> 0 <= a <= N -> 0 <= b ->
+  (a * b) / p - 1 <= (a * ((N * b) / p)) / N <= (a * b) / p.
+Proof. exact shoup_bound. Qed.
+Print Assumptions C03_shoup_quotient_within_one.
+(* ... and the modelled code with all conversions (the Residu_t product and q*_p really wrap for the 32/64 and 64/128 pairs) returns
+   (a*b) mod p for all 16 (width, signedness, compute width) cases inside the asserted precondition bitsize(p) <= 4*sizeof(Compute_t) - 1 *)
+Theorem C03_mul_precomp_b_exact : forall sb sg cb p, Mulpb_stmt sb sg cb p.   Proof. exact mulpb_exact. Qed.
+Print Assumptions C03_mul_precomp_b_exact.
